@@ -1,4 +1,5 @@
 import AtreeModel.Basic
+import AtreeModel.Storage
 /-
   `CheckStorageHealth` (storage_health_check.go) and `getAllChildReferences` (storage.go) over an
   abstract heap: the slabs the slab iterator yields when all slabs are loaded, i.e. the non-nil
@@ -8,6 +9,10 @@ import AtreeModel.Basic
 
   Go map iteration order is a free parameter: the heap is an association list and the model
   iterates in list order; the theorems hold for every order (they quantify over all heaps).
+
+  Second part: `PersistentSlabStorage.SlabIterator` (storage.go) on the storage state machine
+  `St` (`slabIterator`), and `CheckStorageHealth` run on what it yields (`checkStorage`), including
+  the `duplicate slab` test.  `AtreeProofs/Health/Iter.lean` connects the two parts.
 -/
 namespace Atree
 
@@ -25,7 +30,9 @@ inductive HErr where
   | owner            -- "parent and child are not owned by the same account"
   | unreachable      -- "slab was not reachable from leaves"
   | rootCount        -- "number of root slabs doesn't match"
-  | diverges         -- the Go loop would not terminate (a reference cycle below a leaf's ancestor)
+  | diverges         -- the Go loop would not terminate (a reference cycle)
+  | duplicate        -- "duplicate slab" (the iterator yielded one ID twice)
+  | decoding         -- slab iteration could not decode a register it had to load
 deriving Repr, DecidableEq
 
 namespace Health
@@ -94,23 +101,147 @@ def check (h : Heap) (expected : Option Nat) : Except HErr (List SlabID) :=
           | some n => if roots.length ≠ n then .error .rootCount else .ok roots
           | none => .ok roots
 
+/-- one level of `getAllChildReferences`: every reference of the level is retrieved; a missing
+    slab is a broken reference, a found one is a reference whose own references join the next level.
+    The accumulator is `(references, brokenReferences, nextChildStorables)`. -/
+def levelStep (h : Heap) (acc : List SlabID × List SlabID × List SlabID) (r : SlabID) :
+    List SlabID × List SlabID × List SlabID :=
+  match AList.find? h r with
+  | none => (acc.1, acc.2.1 ++ [r], acc.2.2)
+  | some s => (acc.1 ++ [r], acc.2.1, acc.2.2 ++ s.refs)
+
 /-- `getAllChildReferences`: breadth-first over the references, level by level; returns
-    `(references, brokenReferences)` in discovery order.  `fuel` bounds the number of levels
-    (the Go loop does not terminate on a reference cycle). -/
-def childRefs (h : Heap) : Nat → List SlabID → List SlabID → List SlabID → List SlabID × List SlabID
-  | 0, _, refs, broken => (refs, broken)
-  | _, [], refs, broken => (refs, broken)
-  | fuel + 1, level, refs, broken =>
-    let step := level.foldl (fun (acc : List SlabID × List SlabID × List SlabID) r =>
-      match AList.find? h r with
-      | none => (acc.1, acc.2.1 ++ [r], acc.2.2)
-      | some s => (acc.1 ++ [r], acc.2.1, acc.2.2 ++ s.refs)) (refs, broken, [])
+    `(references, brokenReferences)` in discovery order (a slab reachable along two paths is listed
+    twice, as in Go).  `fuel` bounds the number of levels: the Go loop does not terminate on a
+    reference cycle; running out of fuel with references still to visit is reported as `diverges`
+    (with `fuel > h.length` that happens exactly when there is a cycle, see
+    `Health.childRefs_diverges_iff`). -/
+def childRefs (h : Heap) : Nat → List SlabID → List SlabID → List SlabID →
+    Except HErr (List SlabID × List SlabID)
+  | _, [], refs, broken => .ok (refs, broken)
+  | 0, _ :: _, _, _ => .error .diverges
+  | fuel + 1, r :: rs, refs, broken =>
+    let step := (r :: rs).foldl (levelStep h) (refs, broken, [])
     childRefs h fuel step.2.2 step.1 step.2.1
 
-def allChildReferences (h : Heap) (root : SlabID) : Option (List SlabID × List SlabID) :=
+/-- `GetAllChildReferences(id)`: `SlabNotFoundError` when `id` itself is not found. -/
+def allChildReferences (h : Heap) (root : SlabID) : Except HErr (List SlabID × List SlabID) :=
   match AList.find? h root with
-  | none => none
-  | some s => some (childRefs h (h.length + 1) s.refs [] [])
+  | none => .error .slabNotFound
+  | some s => childRefs h (h.length + 1) s.refs [] []
+
+/-! ### `PersistentSlabStorage.SlabIterator` and `CheckStorageHealth` on what it yields
+
+`σ` is the in-memory slab, `β` the register; `abs id v` reduces the slab `v` held under the key `id`
+to its own ID (`v.SlabID()`; the key is passed along for slab types of the model that do not carry
+their ID) and the references its `ChildStorables` traversal finds.  The model flattens that traversal (`(abs id v).refs`)
+where Go interleaves it with the loads, so the ORDER in which lazily loaded slabs are appended may
+differ from Go's; the multiset of yielded entries is the same, and the order of the slice is a free
+parameter of the check anyway (Go map iteration order of `deltas` / `cache`). -/
+
+section Iterator
+variable {σ β : Type}
+
+/-- one level of `appendChildStorables`: a reference that is a KEY of `deltas` or `cache` (even with
+    a nil value) is skipped; any other is fetched with `RetrieveIgnoringDeltas(id, false)` (not
+    cached), appended to the slice, and its references join the next level. -/
+def iterLevel (c : Codec σ β) (abs : SlabID → σ → HSlab) (s : St σ β) :
+    List SlabID → List (SlabID × σ) → List SlabID → Except HErr (List (SlabID × σ) × List SlabID)
+  | [], acc, next => .ok (acc, next)
+  | id :: rest, acc, next =>
+    if AList.contains s.deltas id then iterLevel c abs s rest acc next
+    else if AList.contains s.cache id then iterLevel c abs s rest acc next
+    else
+      match s.retrieveIgnoringDeltas c id false with
+      | .error _ => .error .decoding
+      | .ok (none, _) => .error .slabNotFound       -- "slab not found during slab iteration"
+      | .ok (some v, _) => iterLevel c abs s rest (acc ++ [(id, v)]) (next ++ (abs id v).refs)
+
+/-- `appendChildStorables`: level by level until no reference is left.  `fuel` bounds the number
+    of levels (a reference cycle among registers that are not loaded makes the Go loop run
+    forever). -/
+def iterChildren (c : Codec σ β) (abs : SlabID → σ → HSlab) (s : St σ β) :
+    Nat → List SlabID → List (SlabID × σ) → Except HErr (List (SlabID × σ))
+  | _, [], acc => .ok acc
+  | 0, _ :: _, _ => .error .diverges
+  | fuel + 1, r :: rs, acc =>
+    match iterLevel c abs s (r :: rs) acc [] with
+    | .error e => .error e
+    | .ok (acc', next) => iterChildren c abs s fuel next acc'
+
+/-- `appendSlab` -/
+def iterAppend (c : Codec σ β) (abs : SlabID → σ → HSlab) (s : St σ β) (acc : List (SlabID × σ))
+    (id : SlabID) (v : σ) : Except HErr (List (SlabID × σ)) :=
+  iterChildren c abs s (s.base.length + 1) (abs id v).refs (acc ++ [(id, v)])
+
+/-- first loop of `SlabIterator`: the write set; nil entries are skipped -/
+def iterDeltas (c : Codec σ β) (abs : SlabID → σ → HSlab) (s : St σ β) :
+    List (SlabID × Option σ) → List (SlabID × σ) → Except HErr (List (SlabID × σ))
+  | [], acc => .ok acc
+  | (_, none) :: rest, acc => iterDeltas c abs s rest acc
+  | (id, some v) :: rest, acc =>
+    match iterAppend c abs s acc id v with
+    | .error e => .error e
+    | .ok acc' => iterDeltas c abs s rest acc'
+
+/-- second loop: the copied cache keys; nil entries and IDs that are keys of the write set are
+    skipped -/
+def iterCache (c : Codec σ β) (abs : SlabID → σ → HSlab) (s : St σ β) :
+    List SlabID → List (SlabID × σ) → Except HErr (List (SlabID × σ))
+  | [], acc => .ok acc
+  | id :: rest, acc =>
+    match AList.find? s.cache id with
+    | none | some none => iterCache c abs s rest acc
+    | some (some v) =>
+      if AList.contains s.deltas id then iterCache c abs s rest acc
+      else
+        match iterAppend c abs s acc id v with
+        | .error e => .error e
+        | .ok acc' => iterCache c abs s rest acc'
+
+/-- `PersistentSlabStorage.SlabIterator()`: the slice the returned closure walks through. -/
+def slabIterator (c : Codec σ β) (abs : SlabID → σ → HSlab) (s : St σ β) :
+    Except HErr (List (SlabID × σ)) :=
+  match iterDeltas c abs s s.deltas [] with
+  | .error e => .error e
+  | .ok acc => iterCache c abs s (AList.keys s.cache) acc
+
+end Iterator
+
+/-- first loop of `CheckStorageHealth` with its `duplicate slab` test (`seen` = keys of `slabs`) -/
+def scanD : List (SlabID × HSlab) → List SlabID → AList SlabID SlabID → List SlabID →
+    Except HErr (AList SlabID SlabID × List SlabID)
+  | [], _, po, lv => .ok (po, lv)
+  | (id, s) :: rest, seen, po, lv =>
+    if seen.contains id then .error .duplicate
+    else
+      match scanRefs id s.refs po with
+      | .error e => .error e
+      | .ok po' => scanD rest (id :: seen) po' (if s.refs.isEmpty then lv ++ [id] else lv)
+
+/-- `CheckStorageHealth` on the slice an iterator yields (an ID may occur twice in it); the slabs
+    retrieved while climbing are the yielded ones. -/
+def checkYield (ys : Heap) (expected : Option Nat) : Except HErr (List SlabID) :=
+  match scanD ys [] [] [] with
+  | .error e => .error e
+  | .ok (po, leaves) =>
+    if !allResolve ys po then .error .slabNotFound
+    else
+      match climbAll ys po leaves [] [] with
+      | .error e => .error e
+      | .ok (visited, roots) =>
+        if visited.length ≠ ys.length then .error .unreachable
+        else
+          match expected with
+          | some n => if roots.length ≠ n then .error .rootCount else .ok roots
+          | none => .ok roots
+
+/-- `CheckStorageHealth(storage, expected)` for a `PersistentSlabStorage`. -/
+def checkStorage {σ β : Type} (c : Codec σ β) (abs : SlabID → σ → HSlab) (s : St σ β)
+    (expected : Option Nat) : Except HErr (List SlabID) :=
+  match slabIterator c abs s with
+  | .error e => .error e
+  | .ok ys => checkYield (ys.map (fun p => (p.1, abs p.1 p.2))) expected
 
 end Health
 end Atree
